@@ -236,6 +236,11 @@ func (r *ConcRun) execOp(t *Task, co *concOp) {
 		}
 	case "renameDataset":
 		_, co.err = h.Dsm.UpdateDataset(op.DS, &server.UpdateDatasetConfig{ID: op.DS2})
+	case "gc":
+		// the garbage collector's pass over the deleted datasets (it runs at every start and daily) while clients
+		// delete other datasets
+		co.err = server.NewGarbageCollector(h.Store, h.Env).Cleandeleted()
+		r.Stats["gc_runs_concurrent"]++
 	case "publicNS":
 		// a client declares the public namespaces of a dataset the way the API documents it: it posts the
 		// dataset's meta-entity, with the list, to core.Dataset (another client may be deleting that dataset)
@@ -965,6 +970,12 @@ func genC07c(g *G, sc *Scenario, tier string) {
 		for _, v := range victims {
 			sc.Tasks = append(sc.Tasks, []Op{{K: "deleteDataset", DS: v}})
 		}
+	}
+	if g.P(0.4) {
+		// a dataset was deleted earlier, and the garbage collector makes its pass while the clients delete
+		sc.Datasets = append(sc.Datasets, "vOld")
+		sc.Ops = append(sc.Ops, Op{K: "batch", DS: "vOld", Ents: []Ent{g.freshEnt(c, g.Pick(c.Pool))}}, Op{K: "deleteDataset", DS: "vOld"})
+		sc.Tasks = append(sc.Tasks, []Op{{K: "gc"}})
 	}
 	if g.P(0.4) {
 		// another client declares the public namespaces of a dataset that is being deleted
